@@ -203,7 +203,7 @@ PROPS["C08"] = {
     "bounds": {
         "quick": "populations x cases (n,m) in {(0,0),(0,2),(1,0),(1,2),(2,1),(2,2),(3,2),(2,3),(3,3),(4,2)}, every result a SYMBOLIC unbounded integer (ties, duplicates and every relative "
                  "order decided by z3 at the three-way comparison), both polarities (scores / errors), every case order and every final order of the survivors (the shuffle models fork "
-                 "over all permutations): returned individual in REF(sigma), candidate set before the final choice == REF(sigma), not Pareto-dominated, Ok iff non-empty",
+                 "over all permutations): returned individual in REF(sigma), candidate set before the final choice == REF(sigma), not Pareto-dominated, Ok iff non-empty; every survivor can be the final pick (X4)",
         "thorough": "as quick plus (4,3) and (3,4)",
     },
     "outside": "uniformity of the case order and of the final choice is rand's documented shuffle contract (modelled as 'any permutation'): the probability law of the statement follows from "
